@@ -2,6 +2,8 @@ package main
 
 import (
 	"fmt"
+	"go/token"
+	"go/types"
 	"strings"
 
 	"golang.org/x/tools/go/ssa"
@@ -291,4 +293,138 @@ func bucketOrigins(p *Program, call *ssa.Call) []ssa.Value {
 		}
 	}
 	return out
+}
+
+// checkUnlockRestoresWipedKeys (sibling agreement lock() <-> Unlock()): every key of the
+// three-tier hierarchy that lock() wipes in place (x.Zero() on a Manager field holding an
+// EncryptorDecryptor) must be restored by Unlock from its stored ciphertext — a CopyBytes on
+// the same field whose argument is the result of masterKeyPriv.Decrypt(<a []byte field of
+// Manager>), distinct per key — on every path from the passphrase check (DeriveKey) to a
+// success return. A key that is wiped but never restored stays all-zero while the manager
+// reports "unlocked", so everything Manager.Encrypt seals under that class is sealed under a
+// publicly known key: the database then holds the secret in effectively clear form.
+func checkUnlockRestoresWipedKeys(c *Ctx, rule string) {
+	p := c.P
+	lock := p.Func("waddrmgr", "Manager", "lock")
+	unlock := p.Func("waddrmgr", "Manager", "Unlock")
+	if lock == nil || unlock == nil {
+		c.Unresolved(rule, "Manager.lock / Manager.Unlock")
+		return
+	}
+	recvField := func(cc *ssa.CallCommon) (string, types.Type, bool) {
+		var recv ssa.Value
+		if cc.IsInvoke() {
+			recv = cc.Value
+		} else if len(cc.Args) > 0 && cc.StaticCallee() != nil && cc.StaticCallee().Signature.Recv() != nil {
+			recv = cc.Args[0]
+		}
+		if recv == nil {
+			return "", nil, false
+		}
+		tn, f, _, ok := fieldOf(stripConv(recv))
+		if !ok || tn != "Manager" {
+			return "", nil, false
+		}
+		return f, recv.Type(), true
+	}
+	// keys wiped in place by lock()
+	type wiped struct {
+		field string
+		pos   token.Pos
+	}
+	var ws []wiped
+	for _, ci := range callsOf(lock) {
+		cc := ci.Common()
+		if calleeShort(cc) != "Zero" {
+			continue
+		}
+		f, t, ok := recvField(cc)
+		if !ok {
+			continue
+		}
+		if _, isIface := t.Underlying().(*types.Interface); !isIface {
+			continue // masterKeyPriv (*snacl.SecretKey) is re-derived from the passphrase, not from a stored ciphertext
+		}
+		ws = append(ws, wiped{f, ci.Pos()})
+	}
+	c.Floor(rule, "crypto keys wiped in place by Manager.lock", len(ws), 2)
+	var derive ssa.Instruction
+	for _, ci := range callsOf(unlock) {
+		if calleeShort(ci.Common()) == "DeriveKey" {
+			if f, _, ok := recvField(ci.Common()); ok && f == "masterKeyPriv" {
+				derive = ci
+			}
+		}
+	}
+	if derive == nil {
+		c.Unresolved(rule, "masterKeyPriv.DeriveKey call in Manager.Unlock")
+		return
+	}
+	sl := &Slicer{P: p, KeepExtract: true}
+	usedCipher := map[string]string{}
+	for _, w := range ws {
+		var restores []*ssa.Call
+		why := "Unlock contains no CopyBytes on this field"
+		for _, ci := range callsOf(unlock) {
+			call, ok := ci.(*ssa.Call)
+			if !ok || calleeShort(&call.Call) != "CopyBytes" {
+				continue
+			}
+			f, _, ok := recvField(&call.Call)
+			if !ok || f != w.field {
+				continue
+			}
+			args := call.Call.Args
+			src := args[len(args)-1]
+			good := false
+			for _, o := range sl.Origins(src) {
+				ex, ok := o.(*ssa.Extract)
+				if !ok || ex.Index != 0 {
+					continue
+				}
+				dc, ok := ex.Tuple.(*ssa.Call)
+				if !ok || calleeShort(&dc.Call) != "Decrypt" {
+					continue
+				}
+				rf, _, ok := recvField(&dc.Call)
+				if !ok || rf != "masterKeyPriv" {
+					why = "the restored bytes are not decrypted with the master private key"
+					continue
+				}
+				dargs := dc.Call.Args
+				tn, cf, _, ok := fieldOf(stripConv(dargs[len(dargs)-1]))
+				if !ok || tn != "Manager" {
+					why = "the decrypted ciphertext is not a stored-key field of Manager"
+					continue
+				}
+				if prev, dup := usedCipher[cf]; dup && prev != w.field {
+					why = fmt.Sprintf("restored from %s, the stored ciphertext that already restores %s", cf, prev)
+					continue
+				}
+				usedCipher[cf] = w.field
+				good = true
+			}
+			if good {
+				restores = append(restores, call)
+			}
+		}
+		ok := len(restores) > 0
+		detail := why
+		if ok {
+			isRestore := func(ins ssa.Instruction) bool {
+				for _, r := range restores {
+					if ins == ssa.Instruction(r) {
+						return true
+					}
+				}
+				return false
+			}
+			if off := p.mustPassToSuccess(unlock, derive, isRestore, nil); off != nil {
+				ok = false
+				detail = "a success return of Unlock at " + p.Pos(off.Pos()) + " is reachable from the passphrase check without restoring this key"
+			}
+		}
+		c.Check(rule, "unlock-restores-wiped-key:"+w.field, w.pos, ok,
+			fmt.Sprintf("Manager.lock wipes %s in place but Manager.Unlock does not restore it from its stored ciphertext (%s): while unlocked the key is all-zero, so data sealed under this key class is sealed under a publicly known key", w.field, detail))
+	}
 }
